@@ -172,3 +172,26 @@ impl Lexer {
         }
     }
 }
+
+#[cfg(feature = "verif-hooks")]
+impl Token {
+    pub fn verif_new(kind: char, pos: u32) -> Self {
+        Token { kind, pos }
+    }
+
+    pub fn verif_pos(&self) -> u32 {
+        self.pos
+    }
+}
+
+#[cfg(feature = "verif-hooks")]
+impl Lexer {
+    /// Token-level constructor, so that harness buffers have a concrete length
+    pub fn verif_from_tokens(buf: Vec<Token>, entire_span: Span, is_expanded: bool) -> Self {
+        Self::new(buf, entire_span, is_expanded)
+    }
+
+    pub fn verif_tokens(&self) -> &[Token] {
+        &self.buf
+    }
+}
